@@ -263,7 +263,8 @@ PickCoords(l, sm) == IF sm THEN 0..(2 * l.w - 1) ELSE {0, l.w - 1, l.w, 2 * l.w 
 Requests(l, kind, sm) ==
   CASE kind = "sample" -> {[k |-> "sample", r |-> r, c |-> c] : r \in PickCoords(l, sm), c \in PickCoords(l, sm)}
     [] kind = "row"    -> {[k |-> "row", i |-> i] : i \in 0..(2 * l.w - 1)}
-    [] kind = "rnd"    -> {[k |-> "rnd", i |-> i, ns |-> ns] : i \in 0..l.w, ns \in ReqNs}
+    [] kind = "rnd"    -> {[k |-> "rnd", i |-> i, ns |-> ns] :
+                             i \in IF sm THEN 0..l.w ELSE {1, l.w - 2, l.w}, ns \in ReqNs}
     [] kind = "nd"     -> {[k |-> "nd", ns |-> ns] : ns \in ReqNs}
     [] kind = "range"  ->
          IF sm THEN {[k |-> "range", from |-> f, to |-> t, nsc |-> nsc] :
